@@ -165,6 +165,13 @@ package core
 //@                         ==> len(stride.Emitted) == atcall(core.Action.Exec, len(firstret(core.Action.Exec, exe).Emitted))
 //@   ensures[C08] guardsilent: stride != nil && (st.NodeName in s.Nodes) && nodeOf(s, st).Action == nil ==> len(stride.Emitted) == 0
 
+//@ func (*Walked).To returns st
+//@   safety C07
+//@   requires w != nil && forall j int :: 0 <= j && j < len(w.Strides) ==> w.Strides[j] != nil
+//@   modifies nothing
+//@   ensures st != nil ==> fresh(st) && st.Bs != nil && fresh(st.Bs)
+//@   loop 0 invariant i < len(w.Strides)
+
 // A breakpoint predicate supplied by the host: assumed not to modify anything.
 //@ sig core.Breakpoint(ctx, st) returns (hit)
 //@   modifies nothing
@@ -184,6 +191,7 @@ package core
 //@   modifies[;profile=any] st.Bs
 //@   writes[C12] st.Bs
 //@   ensures total: err == nil && walked != nil && fresh(walked)
+//@   ensures[;profile=pure] strides: forall j int :: 0 <= j && j < len(walked.Strides) ==> walked.Strides[j] != nil
 //@   ensures[C05;profile=pure] bound: len(walked.Strides) <= limitOf(c)
 //@   ensures[C05;profile=pure] remaining: (walked.StoppedBecause == Limited || walked.StoppedBecause == BreakpointReached) ==> suffixOf(walked.Remaining, pendings)
 //@   ensures[C05;profile=pure] done: walked.StoppedBecause == Done ==> len(walked.Remaining) == 0 && len(walked.Strides) > 0 && walked.Strides[len(walked.Strides)-1].To == nil
